@@ -1,14 +1,36 @@
+import NucsProofs.Propagators.Affine
 import NucsProofs.Propagators.AffineLeq
+import NucsProofs.Propagators.CountEq
+import NucsProofs.Propagators.Counting
+import NucsProofs.Propagators.Dummy
+import NucsProofs.Propagators.Element
+import NucsProofs.Propagators.MinMax
+
 /-!
   C07 — a constraint is declared entailed only when it can no longer be violated.
 
   `EntailOk a`: a call answers `entailed` only if every tuple of the box it returns satisfies the
-  relation.  (The history part — flags are copied on push, never written below the top, boxes only
-  shrink — is in NucsProofs/Engine and re-exported here as `C07_history` once proved.)
+  relation.  The history part (flags are copied on push, never written below the top, boxes only
+  shrink) is the `ent` field of the engine invariant `Inv` (NucsProofs/Engine/BcLoop.lean),
+  preserved by every propagation pass (`bcLoopG_inv`) and by push/backtrack (Engine/Search).
 -/
 namespace Nucs
 
+theorem C07_affineGeq : EntailOk .affineGeq := entailOk_affineGeq
 theorem C07_affineLeq : EntailOk .affineLeq := entailOk_affineLeq
+theorem C07_countEq : EntailOk .countEq := entailOk_countEq
+theorem C07_elementIv : EntailOk .elementIv := entailOk_elementIv
+theorem C07_elementLic : EntailOk .elementLic := entailOk_elementLic
+theorem C07_elementLiv : EntailOk .elementLiv := entailOk_elementLiv
+theorem C07_exactlyEq : EntailOk .exactlyEq := entailOk_exactlyEq
+theorem C07_exactlyTrue : EntailOk .exactlyTrue := entailOk_exactlyTrue
+theorem C07_maxLeq : EntailOk .maxLeq := entailOk_maxLeq
+theorem C07_minGeq : EntailOk .minGeq := entailOk_minGeq
+theorem C07_relation : EntailOk .relation := entailOk_relation
+
+/-- algorithms for which `EntailOk` is stated (Spec.lean) but not proved here: validated by the
+    correspondence and the brute-force oracle only -/
+def C07_unproved : List Alg := [.lexLeq]
 
 /-- non-vacuity: an in-contract call that answers `entailed` -/
 example : runAlg .affineLeq [1, 1, 10] [(0, 5), (0, 5)] = .ok (.ent, [(0, 5), (0, 5)]) := by rfl
